@@ -2,7 +2,7 @@
 import itertools
 
 import gen_lang
-from vlib import Case, lang_lines
+from vlib import Case
 
 RULE = ("ops `scan` (real scanner vs the Lean scanner model, token by token), `compile` (scan -> parse -> compile in-process under catch_unwind with a watchdog): "
         "bounded-exhaustive over all strings of length <= 3 (quick) / 4 (thorough) from a 31-character alphabet chosen to hit every scanner branch, all token sequences of "
@@ -152,8 +152,9 @@ def pprog_cases(ctx, programs):
     for p in programs[:ctx.scale(300, 5000)]:
         srcs.append(p); tags.append("pp-lang")
     keep = [(s, t) for s, t in zip(srcs, tags) if s.strip()]
-    lines = lang_lines(ctx, [s for s, _ in keep], op="pprog")
-    return [Case(l, (t,), extra={"src": s}) for l, (s, t) in zip(lines, keep)]
+    # no AST is sent along (`@@ -`): the oracle of C01 is "ends without panic or hang"; what is compared is the model's
+    # result with the real parser's (statement list / perr / HANG)
+    return [Case(f"pprog {hexs(s)} @@ -", (t,), extra={"src": s}) for s, t in keep]
 
 
 def cases(ctx):
